@@ -154,12 +154,9 @@ namespace options
             {
                 auto list = arg.as_short_list();
 
-                if (list.size() > 1 && arg.has_value())
-                {
-                    return false;
-                }
-
-                return list.count(short_name());
+                // only toggles can be bundled like -abc, anything that takes a value has to be
+                // given on its own
+                return list.size() == 1 && list.count(short_name());
             }
             else if (arg.is_named())
             {
